@@ -407,8 +407,8 @@ func c10Check(run *Run, c *c10Case, worker int) {
 
 func runC10(run *Run, replay string) Spec {
 	spec := Spec{
-		Level: "translation_validation",
-		Rule: "generated operations over layout L1 with @defer on inline fragments and spreads (nested, sibling, in lists, under interface and union members, at the root, labelled, if: literal/variable) × 3 completion orders of the subgraph requests (seeded delays): the recorded frames are accepted by the Lean acceptor Defer.accept, Defer.reconstruct of the frames equals the data of the same operation with every @defer removed (same engine), @defer(if:false) yields one payload with that data, writer calls never overlap, nothing after Complete, the stream ends. non-trivial = operations whose stream has ≥ 2 frames; distinct = distinct (operation, universe)",
+		Level:       "translation_validation",
+		Rule:        "generated operations over layout L1 with @defer on inline fragments and spreads (nested, sibling, in lists, under interface and union members, at the root, labelled, if: literal/variable) × 3 completion orders of the subgraph requests (seeded delays): the recorded frames are accepted by the Lean acceptor Defer.accept, Defer.reconstruct of the frames equals the data of the same operation with every @defer removed (same engine), @defer(if:false) yields one payload with that data, writer calls never overlap, nothing after Complete, the stream ends. non-trivial = operations whose stream has ≥ 2 frames; distinct = distinct (operation, universe)",
 		TrustedBase: []string{"the engine without @defer as the data reference (validated against the Lean reference executor by C01)", "the harness' semantic subgraphs, recording writer and operation generator", "JSON decoding of frames in the Lean driver"},
 		Assumptions: []string{"completion orders are induced by seeded per-request delays, not enumerated", "when the undeferred response or any frame carries errors only the stream discipline is checked, not data equality (non-null propagation legitimately differs per payload)"},
 	}
